@@ -164,15 +164,30 @@ func (s *server) onAccept(conn Conn) {
 	// store & register connection
 	nconn := new(connection)
 	nconn.init(conn, s.opts)
+	fd := conn.Fd()
+	// The connection is registered in its poller from init on: the peer may close it and another
+	// poller may run its close callbacks concurrently with the rest of this function.
+	// untracked (guarded by mu) orders the Store below against the untrack callback, so that a
+	// connection which has already been torn down is never left in the map.
+	var mu sync.Mutex
+	untracked := false
+	nconn.AddCloseCallback(func(connection Connection) error {
+		mu.Lock()
+		untracked = true
+		s.connections.Delete(fd)
+		mu.Unlock()
+		return nil
+	})
+	// check only after the callback is registered: close callbacks that started earlier
+	// do not include it.
 	if !nconn.IsActive() {
 		return
 	}
-	fd := conn.Fd()
-	nconn.AddCloseCallback(func(connection Connection) error {
-		s.connections.Delete(fd)
-		return nil
-	})
-	s.connections.Store(fd, nconn)
+	mu.Lock()
+	if !untracked {
+		s.connections.Store(fd, nconn)
+	}
+	mu.Unlock()
 
 	// trigger onConnect asynchronously
 	nconn.onConnect()
